@@ -381,13 +381,12 @@ impl Node {
             return;
         }
 
-        // If this is a duplicate birth message that we will have already received we dont need to notify the metric store
-        if !(self.lifecycle_state == LifecycleState::Birthed && self.bdseq == birth.bdseq) {
-            if let Some(store) = &mut self.store {
-                if store.update_from_birth(birth.metrics_details).is_err() {
-                    self.issue_rebirth(RebirthReason::InvalidPayload).await;
-                    return;
-                };
+        // A replayed birth message has been filtered out by its timestamp above. Every birth that gets here is a new
+        // one (a rebirth keeps the bdSeq) and may define a different set of metrics, so the metric store has to see it
+        if let Some(store) = &mut self.store {
+            if store.update_from_birth(birth.metrics_details).is_err() {
+                self.issue_rebirth(RebirthReason::InvalidPayload).await;
+                return;
             };
         };
 
